@@ -17,7 +17,9 @@ TReset == (Is("Reset") \/ Is("Run")) /\ l' = l + 1 /\ intact' = 0 /\ total' = 0 
 TPlan == /\ Is("Plan") /\ l' = l + 1 /\ intact' = Trace[l].intact /\ total' = Trace[l].total
          /\ UNCHANGED <<delivered, ended>>
 \* whatever was done to the ciphertext: the next contiguous, unaltered range, never beyond the intact prefix
-TReadRet == /\ Is("ReadRet") /\ l' = l + 1 /\ ~ended
+\* (also after an error was reported: a consumer that keeps reading - io.ReadFull does when data came with the error -
+\* may be handed what was decoded before the damage, never anything else)
+TReadRet == /\ Is("ReadRet") /\ l' = l + 1
             /\ LET e == Trace[l] IN e.ok /\ e.off = delivered /\ delivered + e.n <= intact
             /\ delivered' = delivered + Trace[l].n /\ UNCHANGED <<intact, total, ended>>
 \* the first damaged or forged frame (or the end of the stream) makes Read report an error;
